@@ -30,13 +30,17 @@ CLAIMED = {
         text='Banking: get/set/get_rmode/set_rmode/get_spsr/set_spsr run from an arbitrary symbolic register file with '
              'symbolic register number and mode and are compared with the B1.3.2 bank table (one inductive step = all '
              'histories). Range: every register/SPSR/PC value in [0,2^32) after every exception entry and after the '
-             'instruction rows prone to unwrapped arithmetic (the functional tables assert it for all their rows).',
+             'instruction rows prone to unwrapped arithmetic (the functional tables assert it for all their rows). '
+             'Instructions that name another bank explicitly (LDM/STM user registers, SRS, RFE, SPSR moves, CPS, '
+             'exception return) stepped from an arbitrary mode with all 34 physical registers compared.',
         ref='DESIGN.md 6/C10',
         note='trusts z3, symx, the bank-table transcription; configurations enumerated (sec, nosec, sec+virt)'),
     'C11': dict(
         text='Every exception-entry function (undef, svc, smc, data abort, irq, fiq, hyp trap, reset) is executed from an '
              'arbitrary symbolic state (whole CPSR, PC, SCTLR.{V,VE,TE,EE,NMFI}, all SCR bits, HCR routing bits, '
-             'HSCTLR, vector base registers) and the full post-state is compared with the B1.9 pseudocode incl. frame.',
+             'HSCTLR, vector base registers) and the full post-state is compared with the B1.9 pseudocode incl. frame; '
+             'dispatch through the real emulate_cycle by SVC/SMC/UDF/BKPT/alignment-faulting LDREX/LDRD rows in ARM and '
+             'Thumb state with arbitrary ITSTATE.',
         ref='DESIGN.md 6/C11',
         note='trusts z3, symx, spec/state.py; external/asynchronous aborts are constant-False stubs in the repository'),
     'C13': dict(
@@ -87,13 +91,15 @@ CLAIMED = {
         text='The real Thumb decoder trees on symbolic words: all 2^16 16-bit encodings with symbolic IT state and all '
              '2^32 32-bit encodings (sharded): per path no defined word of a different row; dependence only on word + IT '
              'state; fetch length decision from hw1[15:11].',
-        ref='DESIGN.md 6/C07', note='as C06'),
+        ref='DESIGN.md 6/C07', note='as C06; known finding F041 (ENTERX/LEAVEX decoded although ThumbEE is not '
+                                    'implemented) excluded by region, still reported'),
     'C08': dict(
         text='Multi-step symbolic programs IT + 1..4 menu instructions (+ branch last / SVC / UDF at each position) '
              'through repeated real emulate_cycle calls with firstcond, mask, NZCV, registers symbolic; CPSR/ITSTATE and '
              'PC compared with the composed oracle after every step, direct IT statements (ITSTATE = firstcond:mask, '
              'flags untouched by 16-bit DP in block, empty after last slot, cleared on exception).',
-        ref='DESIGN.md 6/C08', note='programs from a 9-instruction menu, one IT block; quick 40 shapes, thorough ~2000'),
+        ref='DESIGN.md 6/C08', note='programs from an 11-instruction menu (incl. MSR APSR mid-block and SVC with a '
+                                    'returning handler), one IT block; quick 50 shapes, thorough ~2300'),
     'C09': dict(
         text='Every row of the saturating / extend / bit-field / reverse / PKH / CLZ and parallel add-sub / SEL / USAD '
              'tables (and the multiply/divide table when present) stepped symbolically at full width incl. prior Q/GE; '
@@ -108,9 +114,12 @@ CLAIMED = {
     'C14': dict(
         text='translate_address_p/check_permission/data_abort with k (<=2 quick, <=3 thorough) fully symbolic MPU '
              'regions (enable, size, base, subregions, AP), address, SCTLR.{M,BR}; privilege x direction case-split; '
-             'allow / Background / Permission fault, DFSR.{FS,WnR}, DFAR, frame vs the B5 oracle.',
-        ref='DESIGN.md 6/C14', note='instruction-level abort behaviour is asserted for alignment aborts in C02; >3 '
-                                    'simultaneously symbolic regions outside'),
+             'allow / Background / Permission fault, DFSR.{FS,WnR}, DFAR, frame vs the B5 oracle; the full region file '
+             '(DRegion = 12, symbolic regions at indices incl. 0 and 11); unprivileged accesses made in privileged '
+             'modes; and instruction level: loads/stores stepped through the real emulate_cycle with the MPU on '
+             '(denied access: no transfer, no write-back, Data Abort entry, DFSR/DFAR).',
+        ref='DESIGN.md 6/C14', note='>3 simultaneously symbolic regions outside; instruction-level rows with one '
+                                    'symbolic region, instruction fetch assumed permitted'),
     'C15': dict(
         text='translate_address_v with the page tables = the symbolic memory array, TTBR0/1, TTBCR, DACR, SCTLR.{AFE,EE}, '
              'FCSE PID, PRRR/NMRR, address symbolic: PA(40 bit), NS, memory type/attributes or fault with DFSR.{FS,'
@@ -121,15 +130,20 @@ CLAIMED = {
         text='emulate_cycle over the whole instruction space in shards (ARM bits 27:20; Thumb-16 bits 15:8; Thumb-32 '
              'hw1[12:4]) with every other bit and the whole machine state symbolic, UNPREDICTABLE included: no host '
              'exception escapes (NotImplementedError of mock hooks allowed), registers stay 32-bit, PC aligned.',
-        ref='DESIGN.md 6/C18', note='single step from arbitrary valid state; LDM/STM register lists windowed; MPU off'),
+        ref='DESIGN.md 6/C18', note='single step from arbitrary valid state; SCR.NS, NSACR, CPACR symbolic; LDM/STM '
+                                    'register lists windowed; MPU off'),
     'C19': dict(
         text='Same sweep from CPSR.M = User: still User with A/I/F, other banks, SPSRs and EVERY system register '
-             '(generic snapshot) unchanged, or exception taken to a privileged mode at its vector with SPSR.M = User.',
-        ref='DESIGN.md 6/C19', note='as C18; unprivileged LDRT/STRT permission use is C14 + C02 rows'),
+             '(generic snapshot) unchanged, or exception taken to a privileged mode at its vector with SPSR.M = User; '
+             'SCR.{NS,FW,AW}, NSACR, CPACR symbolic. Unprivileged loads/stores (LDRT/STRT & co, 24 rows) stepped in '
+             'every mode with the MPU on against the oracle that applies User permissions to their accesses.',
+        ref='DESIGN.md 6/C19', note='as C18; MPU rows with one symbolic region (thorough: subregions, two regions)'),
     'C20': dict(
         text='Scratch state havocked before steps (determinism / snapshot independence), reflection-based check that no '
              'module-level object is written, and isolation with a foreign instance created between construction and '
-             'step (equal configuration: unaffected; different configuration: known finding F015).',
+             'step (equal configuration: unaffected; different configuration: known finding F015); history before a '
+             'snapshot (same bits executed in the other instruction set) and construction after a foreign instance '
+             'with symbolic configured reset values leave the instance in its solo state.',
         ref='DESIGN.md 6/C20', note='thread schedules outside the technique'),
 }
 
